@@ -8,6 +8,10 @@
 (*                                                                         *)
 (* HISTORIES (SpecHist).  Component graph                                   *)
 (*     I1, I2 --> P (filterable registry point) <-- Q1, Q2 (parsers) <-- K  *)
+(*     D0 --> D1 --> I1   (I1 is built on further datasources, as a         *)
+(*                         first_of(...) implementation is: D1, D0 are NOT   *)
+(*                         filterable themselves but are what providers are  *)
+(*                         built for, so they are looked up)                 *)
 (*     I3 --> P2 (second registry point, filterable or not: g.p2f)          *)
 (* where Q2 is built on g.q2 (P, P2 or both) and the combiner K on g.k.     *)
 (* A behaviour is any interleaving of AddFilter(k, pats, mx) and            *)
@@ -16,9 +20,9 @@
 (* implementation-shaped part (FILTERS table, per-component look-up cache   *)
 (* with the invalidation rule CacheRule) produces the look-up results.      *)
 (* LookupIsUnion says every look-up returns exactly eff.  With CacheRule =  *)
-(* "self" (invalidate only the component a filter is stored on: the rule    *)
-(* of filters.py:93-94) TLC produces a counterexample; with "all" or "none" *)
-(* the property holds.                                                      *)
+(* "self" (invalidate only the component a filter is stored on) or "direct" *)
+(* (that component and its direct dependencies) TLC produces a              *)
+(* counterexample; with "all" or "none" the property holds.                 *)
 (*                                                                         *)
 (* CONTENT (SpecContent).  A content is a sequence of line classes (blank,  *)
 (* or the set of filter strings the line contains); allow0 gives the match  *)
@@ -34,7 +38,7 @@ CONSTANTS
     NP,          \* filter strings 1..NP (0 stands for the empty string, which is refused)
     BudSet,      \* match budgets explored in histories
     Depth,       \* longest history
-    CacheRule,   \* "none" | "all" | "self"
+    CacheRule,   \* "none" | "all" | "self" | "direct"
     AddSet,      \* components filters are added to
     GetSet,      \* components looked up
     PatSets,     \* pattern arguments explored (sets of 0..NP)
@@ -57,14 +61,25 @@ vars  == <<hvars, cvars>>
 
 Pat     == 1..NP
 Inf     == 10000                      \* filters.MAX_MATCH
-DS      == {"I1", "I2", "P", "I3", "P2"}
+DS      == {"I1", "I2", "P", "I3", "P2", "D1", "D0"}
+Inner   == {"D1", "D0"}                \* datasources an implementation is built on
 Parsers == {"Q1", "Q2"}
 Combs   == {"K"}
 Points  == {"P", "P2"}
 Graphs  == [p2f : BOOLEAN, q2 : {{"P"}, {"P2"}, {"P", "P2"}}, k : {{"Q1"}, {"Q2"}, {"Q1", "Q2"}}]
 
-PointOf(c) == IF c \in {"I1", "I2", "P"} THEN "P" ELSE "P2"
-Filterable(d, G) == d \in {"I1", "I2", "P"} \/ G.p2f
+Owner(c)   == IF c \in Inner THEN "I1" ELSE c        \* the implementation an inner datasource belongs to
+PointOf(c) == IF c \in {"I1", "I2", "P", "D1", "D0"} THEN "P" ELSE "P2"
+(* delegate.filterable: registry points and their implementations; never the inner datasources *)
+Filterable(d, G) == d \in {"I1", "I2", "P"} \/ (d \in {"I3", "P2"} /\ G.p2f)
+(* look-ups the statement speaks about: datasources of a filterable spec, at any depth below it *)
+Judged(c, G)     == Filterable(Owner(c), G)
+(* dr.get_dependencies restricted to datasources *)
+DirectDeps(d) == CASE d = "P"  -> {"I1", "I2"}
+                   [] d = "P2" -> {"I3"}
+                   [] d = "I1" -> {"D1"}
+                   [] d = "D1" -> {"D0"}
+                   [] OTHER    -> {}
 (* get_dependency_datasources (filters.py:74-82): the first datasources below a component *)
 FirstDs(k, G) ==
     CASE k \in DS  -> {k}
@@ -81,9 +96,10 @@ Legal(k, pats, mx, G) ==
 
 (* The statement: a registration on k is in force for datasource c when k   *)
 (* is c itself, the spec c implements, or a parser / combiner built on that *)
-(* spec.                                                                    *)
+(* spec; for a datasource an implementation is built on: whatever is in     *)
+(* force for that implementation.                                           *)
 Reaches(k, c, G) ==
-    \/ k = c
+    \/ k = Owner(c)
     \/ k = PointOf(c)
     \/ k \in Parsers \cup Combs /\ PointOf(c) \in FirstDs(k, G)
 
@@ -93,9 +109,11 @@ MaxOf(a, b) == IF a >= b THEN a ELSE b
 Overlay(a, b) == [p \in Pat |-> IF b[p] # 0 THEN b[p] ELSE a[p]]            \* dict.update
 
 (* get_filters.inner (filters.py:164-183): own table, then the dependents that are datasources *)
+(* (an inner datasource has no table of its own: the walk goes on to its implementation) *)
 Walk(c) ==
-    IF ~Filterable(c, g) THEN NoFilters
-    ELSE IF c \in Points THEN FILTERS[c] ELSE Overlay(FILTERS[c], FILTERS[PointOf(c)])
+    LET o == Owner(c) IN
+    IF ~Filterable(o, g) THEN NoFilters
+    ELSE IF o \in Points THEN FILTERS[o] ELSE Overlay(FILTERS[o], FILTERS[PointOf(o)])
 
 NoCache == [set |-> FALSE, v |-> NoFilters]
 
@@ -103,11 +121,14 @@ AddFilter(k, pats, mx) ==
     /\ nops < Depth
     /\ nops' = nops + 1
     /\ IF Legal(k, pats, mx, g)
-         THEN /\ eff' = [c \in DS |-> IF Reaches(k, c, g) /\ Filterable(c, g) THEN eff[c] \cup pats ELSE eff[c]]
+         THEN /\ eff' = [c \in DS |-> IF Reaches(k, c, g) /\ Judged(c, g) THEN eff[c] \cup pats ELSE eff[c]]
               /\ FILTERS' = [d \in DS |-> IF d \in Targets(k, g)
                                             THEN [p \in Pat |-> IF p \in pats THEN MaxOf(FILTERS[d][p], mx) ELSE FILTERS[d][p]]
                                             ELSE FILTERS[d]]
               /\ cache' = CASE CacheRule = "self" -> [d \in DS |-> IF d \in Targets(k, g) THEN NoCache ELSE cache[d]]
+                            [] CacheRule = "direct" ->
+                                 [d \in DS |-> IF d \in Targets(k, g) \cup UNION {DirectDeps(t) : t \in Targets(k, g)}
+                                                 THEN NoCache ELSE cache[d]]
                             [] CacheRule = "all"  -> [d \in DS |-> NoCache]
                             [] OTHER              -> cache
               /\ ret' = [op |-> "add", c |-> k, v |-> NoFilters, raised |-> FALSE]
@@ -147,10 +168,10 @@ HistView  == <<g, eff, FILTERS, cache, ret>>
 SpecHist == InitHist /\ [][NextHist]_vars
 
 (* every look-up returns the union of what was registered so far *)
-LookupIsUnionInv == ret.op = "get" /\ Filterable(ret.c, g) => Dom(ret.v) = eff[ret.c]
-LookupIsUnion    == [][(ret'.op = "get" /\ Filterable(ret'.c, g)) => Dom(ret'.v) = eff'[ret'.c]]_vars
+LookupIsUnionInv == ret.op = "get" /\ Judged(ret.c, g) => Dom(ret.v) = eff[ret.c]
+LookupIsUnion    == [][(ret'.op = "get" /\ Judged(ret'.c, g)) => Dom(ret'.v) = eff'[ret'.c]]_vars
 (* the table itself always holds the requirement (it is the cache that can lag) *)
-TableIsUnion     == \A c \in DS : Filterable(c, g) => Dom(Walk(c)) = eff[c]
+TableIsUnion     == \A c \in DS : Judged(c, g) => Dom(Walk(c)) = eff[c]
 
 -----------------------------------------------------------------------------
 (* CONTENT *)
